@@ -658,6 +658,7 @@ func sectionCorpus() {
 		case "pipes":
 			var p pipeCase
 			if json.Unmarshal(rp.Input, &p) == nil {
+				p.fromRecorded()
 				pcs = append(pcs, p)
 			}
 		default:
@@ -916,6 +917,34 @@ func sectionDateContract(rng *vh.Rng) {
 type pipeCase struct {
 	From  string `json:"from"`
 	Where string `json:"where"`
+	// texts that are not valid UTF-8 do not survive JSON: recorded (and replayed) as hex
+	FromHex  string `json:"from_hex,omitempty"`
+	WhereHex string `json:"where_hex,omitempty"`
+}
+
+func (c *pipeCase) fromRecorded() {
+	if c.FromHex != "" {
+		c.From = string(vh.UnHx(c.FromHex))
+	}
+	if c.WhereHex != "" {
+		c.Where = string(vh.UnHx(c.WhereHex))
+	}
+}
+
+func pipeInput(c pipeCase) map[string]interface{} {
+	in := map[string]interface{}{"from": c.From, "where": c.Where}
+	if !utf8.ValidString(c.From) {
+		in["from_hex"] = vh.HxS(c.From)
+	}
+	if !utf8.ValidString(c.Where) {
+		in["where_hex"] = vh.HxS(c.Where)
+	}
+	return in
+}
+
+// the refusal of newPPipe (3cf6638): a pipe whose name or conditions are not valid UTF-8 cannot be written to the registry file
+func utf8Refusal(err error) bool {
+	return err != nil && strings.Contains(err.Error(), "must be valid UTF-8")
 }
 
 func truthSrcText(s string) string {
@@ -1023,14 +1052,25 @@ func runPipeCases(sec *vh.Section, cs []pipeCase) {
 			}
 		}
 		res.Eval(sec, c.From+" | "+c.Where)
-		in := map[string]interface{}{"from": c.From, "where": c.Where}
+		in := pipeInput(c)
+		stFrom, stWhere := l.Create.Pipe.From.String(), l.Create.Pipe.Where.String()
+		// A direct definition whose TEXT is not valid UTF-8 is refused at creation since 3cf6638 (it could not survive a
+		// restart unchanged): it is no counter-part, the equivalence clause is vacuous for it. What the property still demands
+		// of CREATE PIPE there: the stored (printed) conditions mean what S and F mean — checked below against the real
+		// evaluators on the ORIGINAL texts — or CREATE PIPE is refused by the same rule.
+		noCounterpart := utf8Refusal(errB) && (!utf8.ValidString(c.From) || !utf8.ValidString(c.Where))
+		printedInvalid := !utf8.ValidString(stFrom) || !utf8.ValidString(stWhere)
 		switch {
-		case errB != nil && errA != nil:
+		case noCounterpart && errA != nil && utf8Refusal(errA) && printedInvalid:
+			res.Dist(sec, "pipe: both refused (texts not valid UTF-8)")
+		case errB != nil && errA != nil && !noCounterpart:
 			res.Dist(sec, "pipe: both refused")
-		case errB != nil && errA == nil:
+		case errB != nil && errA == nil && !noCounterpart:
 			res.SpecFail(vh.SpecFailure{Section: "pipes", Kind: "pipe-definition-differs", Input: in, Impl: "CREATE PIPE accepted", Spec: "refused like CreatePipe: " + errB.Error(), What: "CREATE PIPE accepts what the direct definition refuses"})
 		default:
-			stFrom, stWhere := l.Create.Pipe.From.String(), l.Create.Pipe.Where.String()
+			if noCounterpart {
+				res.Dist(sec, "pipe: direct definition refused (raw text not valid UTF-8), CREATE PIPE judged against S and F alone")
+			}
 			eq := stFrom == mFrom && stWhere == mWhere
 			if !eq {
 				res.Mismatch(vh.Mismatch{Section: "pipes", Function: "cmdCreatePipe: p.From.String(), p.Where.String()", Input: in, Impl: fmt.Sprintf("%q %q", stFrom, stWhere), Model: fmt.Sprintf("%q %q", mFrom, mWhere)})
@@ -1040,9 +1080,20 @@ func runPipeCases(sec *vh.Section, cs []pipeCase) {
 				if eq && classes["F12b"] {
 					fid = "F12b"
 				}
+				// F-C12-901: the printed FROM text carries a tag key / value with bytes that are not valid UTF-8 raw (tagMap.line()
+				// quotes only empty values and values with `=` or `,`), so CREATE PIPE is refused by the persistence rule although the
+				// printed text parses back to the same meaning and the same definition written with escapes is created directly
+				if fid == "" && eq && !noCounterpart && utf8Refusal(errA) && printedInvalid && !utf8.ValidString(mFrom) &&
+					truthSrcText(stFrom) == wantFrom && truthWhereText(stWhere) == wantWhere {
+					fid = "F-C12-901"
+				}
 				res.Dist(sec, "pipe: CREATE PIPE refused "+fid)
+				what := "CREATE PIPE p FROM S WHERE F is refused although the pipe defined directly by S and F is created (the printed condition does not parse)"
+				if noCounterpart {
+					what = "CREATE PIPE p FROM S WHERE F is refused for another reason than texts that are not valid UTF-8 (the printed condition does not parse)"
+				}
 				res.SpecFail(vh.SpecFailure{Section: "pipes", Kind: "reparse-error", Input: in, Impl: "CREATE PIPE refused: " + errA.Error(), Spec: "created like CreatePipe with the original texts", ImplEqModel: eq, Finding: fid,
-					What: "CREATE PIPE p FROM S WHERE F is refused although the pipe defined directly by S and F is created (the printed condition does not parse)"})
+					What: what})
 				break
 			}
 			out, derr := srv.Exec("describe pipe " + na)
@@ -1108,6 +1159,18 @@ func sectionPipes(rng *vh.Rng) {
 	}
 	res.Sample(map[string]interface{}{"section": "pipes", "from": cs[0].From, "where": cs[0].Where})
 	runPipeCases(sec, cs)
+	// a pipe NAME that is not valid UTF-8 must be refused on both routes (3cf6638; the lexer's Ident pattern is ASCII)
+	{
+		_, e1 := pipeSrv.Pipes.CreatePipe(pipe.Pipe{Name: "p\xff", TagsCond: "a=b"})
+		_, e2 := pipeSrv.Exec("create pipe p\xff from a=b")
+		res.Eval(sec, "name not valid UTF-8")
+		res.Dist(sec, "pipe: name not valid UTF-8")
+		if e1 == nil || e2 == nil {
+			res.SpecFail(vh.SpecFailure{Section: "pipes", Kind: "pipe-definition-differs", Input: map[string]interface{}{"from": "a=b", "where": "", "name_hex": vh.HxS("p\xff")},
+				Impl: fmt.Sprintf("CreatePipe err=%v, CREATE PIPE err=%v", e1, e2), Spec: "both refused", What: "a pipe whose name is not valid UTF-8 is created"})
+			pipeSrv.Pipes.DeletePipe("p\xff")
+		}
+	}
 	behaviour(sec, rng)
 	res.Done(sec)
 }
@@ -1224,6 +1287,7 @@ func replay(path string) {
 	case "pipes":
 		var p pipeCase
 		json.Unmarshal(rp.Input, &p)
+		p.fromRecorded()
 		runPipeCases(sec, []pipeCase{p})
 	case "lexer":
 		var c rtCase
